@@ -1,4 +1,5 @@
 import MimicProofs.Framing
+import MimicProofs.Types
 /-!
 # C04 — Packet framing is lossless for every payload size and every stream segmentation
 
@@ -141,5 +142,19 @@ example (p : Bytes) (s : Nat) : ((wire M s p).map (fun b => [b])).flatten = wire
   induction wire M s p with
   | nil => rfl
   | cons b bs ih => simp [ih]
+
+
+/-! ### the code's own header encoding (translated from `types.py` on every run) -/
+
+/-- the four header bytes the code writes — `uint_3(len) + uint_1(seq)` as translated from the source — are the
+    model's, for every length and sequence id -/
+theorem header_is_code (len seq : Nat) :
+    Mimic.Extracted.Types.uint_3 len ++ Mimic.Extracted.Types.uint_1 seq = Mimic.Wire.leN 3 len ++ Mimic.Wire.leN 1 seq := by
+  rw [MimicProofs.Types.uint_3_eq, MimicProofs.Types.uint_1_eq]
+
+/-- and the code's header readers are the model's -/
+theorem header_read_is_code (r : Mimic.Wire.Bytes) :
+    Mimic.Extracted.Types.read_uint_3 r = Mimic.Wire.readUInt 3 r ∧ Mimic.Extracted.Types.read_uint_1 r = Mimic.Wire.readUInt 1 r :=
+  ⟨MimicProofs.Types.read_uint_3_eq r, MimicProofs.Types.read_uint_1_eq r⟩
 
 end MimicProps.C04
